@@ -89,6 +89,22 @@ CLAIMED = {
         technique="symbolic execution (CrossHair/z3) of real constructor vs range oracle, path-tree exhaustion",
         ref="3/C12",
     ),
+    "C13": dict(
+        text="Symbolic execution of the real grammar matcher, parse-tree processor, expression operators, builder and the two "
+        "catch-all funnels on in-memory definitions: the WHOLE definition text as a symbolic str of length <= 2 (quick) / 3 "
+        "(thorough, sharded by first-character class); one symbolic Unicode character replacing/inserted into string-escape "
+        "and statement templates; operands n/d with unbounded symbolic numerators through + - * and comparisons, small "
+        "ranges through / % ** and bitwise operators; one symbolic file-name component (port-ID, version, short name) of "
+        "length <= 1 / 2 through the real DSDLDefinition constructor behind a path stub. Only InvalidDefinitionError with "
+        "the offending file's path may escape. Choice-exhaustive: every operator x 37 operand spellings (incl. 1e400, "
+        "10**400, roots of negatives), 11 value sinks, token-level delete/duplicate/swap/replace/insert on 5 templates, "
+        "faulty dependencies.",
+        note="Conditions over one symbolic character cost 2-4 s per path and are PARTIAL in the quick tier (reported as such; "
+        "they still search for counterexamples). Resource exhaustion (2 ** 10**10, deep nesting) is outside the claim. One "
+        "known finding (integers beyond the interpreter's int->str digit limit) is listed in known_findings.json.",
+        technique="symbolic execution (CrossHair/z3) of real parser on symbolic text/characters/operands; path-stubbed file names",
+        ref="3/C13",
+    ),
     "C17": dict(
         text="Symbolic execution of the real parser / builder / reader on in-memory definitions: (a) the innermost-location "
         "rule of Error.set_error_location_if_unknown for unbounded symbolic line numbers and every presence pattern; (b) "
